@@ -138,3 +138,19 @@ package encrypted_leaseset
 //@     assert((&els).ExpirationTime().Equal(time.Unix(int64(els.Published()), 0).Add(time.Duration(els.Expires()) * time.Second)))
 //@   }
 //@ }
+
+// ---- C19: the two constructors agree: building from a Destination is building
+// from its signing type and signing key bytes (same acceptance, same content).
+//@ option C19_EncryptedConstructorsAgree nocontract *
+//@ lemma C19_EncryptedConstructorsAgree(data []byte, published uint32, expires uint16, flags uint16, inner []byte, priv ed25519.PrivateKey) {
+//@   d, _, err := destination.ReadDestination(data)
+//@   assume(err == nil && len(priv) == 64)
+//@   a, ea := NewEncryptedLeaseSetFromDestination(d, published, expires, flags, nil, inner, priv)
+//@   b, eb := NewEncryptedLeaseSet(uint16(key_certificate.SigType(d.KeysAndCert.KeyCertificate)), d.KeysAndCert.SigningPublic.Bytes(), published, expires, flags, nil, inner, priv)
+//@   assert((ea == nil) == (eb == nil))
+//@   if ea == nil {
+//@     ca, xa := a.bytesWithoutSignature()
+//@     cb, xb := b.bytesWithoutSignature()
+//@     assert(xa == nil && xb == nil && seqeq(ca, cb))
+//@   }
+//@ }
